@@ -5,6 +5,7 @@ import PqlModel.Props.C04ShapeQuery
 import PqlModel.Props.C04ShapeCx
 import PqlModel.Props.C04Numbers
 import PqlModel.Props.C09NumberIR
+import PqlModel.Props.IRHeadlinesB
 #print axioms Pql.C04.C04_decode_string
 #print axioms Pql.C04.C04_decode_identifier
 #print axioms Pql.C04.C04_decode_string_clickhouse_partial
@@ -43,3 +44,11 @@ import PqlModel.Props.C09NumberIR
 #print axioms Pql.Glue.sqlNumValue_ne_decValue
 #print axioms Pql.LexIR.C04_IsInteger_on_scanned
 #print axioms Pql.LexIR.C09_IsInteger_ir
+#print axioms Pql.IRHead.C04_decode_ir
+#print axioms Pql.IRHead.C04_content_parametric_ir
+#print axioms Pql.IRHead.C04_string_shape_ir
+#print axioms Pql.IRHead.C04_number_token_roundtrip_ir
+#print axioms Pql.IRHead.C04_number_literal_roundtrip_ir
+#print axioms Pql.IRHead.C04_content_parametric_ir_nonvacuous
+#print axioms Pql.IRHead.C04_params_verbatim_ir
+#print axioms Pql.IRHead.C04_on_translated_code
